@@ -9,7 +9,7 @@
 //                             Process::start (form 0) / Process::open (form 1); logs the argv the child saw
 //   spawn <form> <streams> <env> <code> <nin> <nout> <nerr> x<arg>...
 //                             form 0 start(exe,argc,argv) 1 open(exe,argc,argv) 2 open(exe,List) 3 start(cmd) 4 open(cmd)
-//                             streams: bit mask of Process::Stream; env 0 = inherit (empty map), 1 = explicit map;
+//                             streams: bit mask of Process::Stream; env 0 = inherit (empty map), 1 = explicit map, 2 = explicit map with empty / '='-containing values, 3 = only those;
 //                             child exits with <code>, reads <nin> bytes from stdin (if redirected), writes <nout>
 //                             pattern bytes to stdout and <nerr> to stderr (only if redirected)
 // The child writes what it observed (argv, environment, stdin bytes) into the report file.
@@ -285,6 +285,9 @@ static void do_spawn()
     env.insert("FOO", "bar");
     env.insert("VERIF_SPAWN", "x y");
     env.insert("ASAN_OPTIONS", "detect_leaks=0");
+    // env 2: values that are empty (set-but-empty differs from unset on POSIX) or contain '='; env 3: nothing but such variables
+    if(envMode >= 2) { env.insert("VERIF_EMPTY", ""); env.insert("VERIF_EQ", "a=b="); }
+    if(envMode == 3) { env.remove("FOO"); env.remove("VERIF_SPAWN"); }
   }
   // child argv: self --echo rep directive words...
   int argc = 4 + nw;
